@@ -90,7 +90,7 @@ func c13ModelProfPlans(r *h.Result, rng *h.Rng, n int) error {
 		var err error
 		var op, kind string
 		bg := context.Background()
-		switch i % 8 {
+		switch i % 10 {
 		case 0:
 			kind = "merge-profiles"
 			sel, err = prof.PlanMergeProfiles(bg, script, &tid, f, t, db)
@@ -135,7 +135,7 @@ func c13ModelProfPlans(r *h.Result, rng *h.Rng, n int) error {
 				scripts = append(scripts, &profparser.Script{Selectors: []profparser.Selector{{Name: s2.Name, Op: s2.Op, Val: profparser.Str{Str: strconv.Quote(s2.Val)}}}})
 				sers = append(sers, c13pSer([]c13pSel{s2}))
 			}
-			if i%8 == 6 {
+			if i%10 == 6 {
 				sel, err = prof.PlanLabelNames(bg, scripts, f, t, db)
 				op = fmt.Sprintf("c13profplan labelsunion %s %s NONE %s", ctxS, hx("key"), strings.Join(sers, "|"))
 			} else {
@@ -143,6 +143,25 @@ func c13ModelProfPlans(r *h.Result, rng *h.Rng, n int) error {
 				sel, err = prof.PlanLabelValues(bg, scripts, l, f, t, db)
 				op = fmt.Sprintf("c13profplan labelsunion %s %s %s %s", ctxS, hx("val"), hx(l), strings.Join(sers, "|"))
 			}
+		case 8:
+			kind = "series-union"
+			var ls []string
+			for k, nl := 0, rng.Intn(3); k < nl; k++ {
+				ls = append(ls, h.Pick(rng, []string{"job", "env", "a'b"}))
+			}
+			scripts := []*profparser.Script{script}
+			sers := []string{c13pSer(sels)}
+			for k, ns := 0, rng.Range(1, 3); k < ns; k++ {
+				s2 := c13pSel{h.Pick(rng, append(append([]string{}, c17Names...), "service_name")), h.Pick(rng, []string{"=", "!=", "=~"}), h.Pick(rng, c17Regex)}
+				scripts = append(scripts, &profparser.Script{Selectors: []profparser.Selector{{Name: s2.Name, Op: s2.Op, Val: profparser.Str{Str: strconv.Quote(s2.Val)}}}})
+				sers = append(sers, c13pSer([]c13pSel{s2}))
+			}
+			sel, err = prof.PlanSeries(bg, scripts, ls, f, t, db)
+			op = fmt.Sprintf("c13profplan seriesunion %s %s %s", ctxS, c13pHexList(ls), strings.Join(sers, "|"))
+		case 9:
+			kind = "analyze-query"
+			sel, err = prof.PlanAnalyzeQuery(bg, script, f, t, db)
+			op = fmt.Sprintf("c13profplan analyze %s %s", ctxS, c13pSer(sels))
 		case 4:
 			kind = "label-names"
 			sel, err = prof.PlanLabelNames(bg, nil, f, t, db)
